@@ -230,7 +230,10 @@ def save_text(a, style, via, tmpdir=None):
         kw["file_comment"] = ["UiO-66 linker", "structure 12", "generated by the harness, step 3"][len(a) % 9 // 3]
     f = io.StringIO()
     if via == "method":
-        a.save_lmpdat(f, **kw)
+        if len(a) % 2:
+            a.save_lmpdat(f, *([kw["atom_format"]] + ([kw["file_comment"]] if "file_comment" in kw else [])))      # by position, documented order
+        else:
+            a.save_lmpdat(f, **kw)
     elif via == "save_load_fileobj":
         a.save(f, filetype="lmpdat", **kw)
     else:
